@@ -111,7 +111,9 @@ std::string propRebuild(const FmmCase& c0, const std::string& prop){
             std::vector<uint32_t> s2 = c.sched; if(!s2.empty()) s2.push_back(uint32_t(nbExecutes) * 2246822519u);
             msched::global().reset(c.threads, s2);
         }
+        if(EXEC == 1 && c.threadsCtor > 0){ const auto keep = msched::global().decisions; msched::global().nbThreads = c.threadsCtor; (void)keep; }
         Algo algo(config, Kernel(&ctx), long(lstop));
+        msched::global().nbThreads = std::max(1, c.threads);
         algo.execute(*tree);
         nbExecutes += 1;
         rm::Expect ex(ctx.P, mt, Periodic, 0);
